@@ -24,6 +24,10 @@ fn arg(name: &str, default: &str) -> String {
 fn main() {
     oracle::sys::install_crash_handlers();
     oracle::quiet_panics();
+    oracle::run_engine(real_main);
+}
+
+fn real_main() {
     let engine = std::env::args().nth(1).unwrap_or_default();
     let tier = arg("--tier", "quick");
     let parity = arg("--parity", "even");
